@@ -14,6 +14,7 @@ import Mathy.Model.PyEval
 import Mathy.Model.TermsLike
 import Mathy.Model.SubTerms
 import Mathy.Model.Problems
+import Mathy.Model.ProblemGen
 namespace Mathy
 
 def Bop.name : Bop → String
